@@ -1,29 +1,83 @@
 #!/venv/bin/python
-"""tools/gen_seed_prompts.py <round> <template prompt of an earlier round for C12> <outdir>
-Prompts for a further round of independently seeded changes: the text of one property, a scratch worktree,
-and the summaries of all earlier changes for that property (so that different mechanisms are looked for)."""
+"""tools/gen_seed_prompts.py <round> <outdir>
+Writes one prompt per property for a further round of independently seeded property-breaking changes. A prompt
+holds the text of one property, the path of the agent's own scratch worktree, and the summaries of all earlier
+changes for that property (so that different mechanisms are looked for) - nothing else from /verif.
+Worktrees: git -C /repo worktree add --detach /tmp/wt/R<round><PID> HEAD ; results go to /tmp/wtout<round>/<PID>/<PID>_k/."""
 import glob
 import json
-import re
 import sys
 
-rnd, template, outdir = sys.argv[1], open(sys.argv[2]).read(), sys.argv[3]
+rnd, outdir = sys.argv[1], sys.argv[2]
 props = {json.loads(l)["id"]: json.loads(l) for l in open("/verif/properties.jsonl")}
-head, rest = template.split("This semantic property of the library is supposed to hold:")
-_, tail = rest.split("Many changes are already known", 1)
-tail = "Many changes are already known" + tail
-old_round = re.search(r"/tmp/wt/R(\d)C12", template).group(1)
+
+TEMPLATE = """You are helping to evaluate a verification effort for the open-source Python library py-droplets
+(zwicker-group/py-droplets: droplets and emulsions, locating them in phase-field images, tracking them over time).
+Your job is to play the adversary: write realistic code changes to the library that BREAK one stated semantic
+property while everything still looks fine to its existing test suite.
+
+Your private scratch checkout (a git worktree, already created, yours alone) is: {wt}
+Work ONLY inside {wt} and your output directory {out} (create it). Never read, list or modify anything under
+/repo or /verif, and do not look at other directories under /tmp/wt or /tmp/wtout*. The interpreter is
+/venv/bin/python (numpy, scipy, numba, h5py, py-pde installed; no network). To make Python import YOUR checkout, run
+things with the environment variable PYTHONPATH={wt} from inside {wt}, and verify with
+`PYTHONPATH={wt} /venv/bin/python -c "import droplets; print(droplets.__file__)"` that the path printed is under {wt}.
+
+This semantic property of the library is supposed to hold:
+
+PROPERTY {pid} - {title}
+{statement}
+
+{known_block}
+Produce THREE changes (k = 1, 2, 3), each made independently on a clean tree (`git -C {wt} checkout -- .` between
+them), each with a genuinely different mechanism. Every change must satisfy ALL of the following:
+
+1. It breaks the property above for some input / configuration / sequence of calls (the library really returns a wrong
+   result, raises where it must not, or fails to raise - not merely a changed message or a slower path).
+2. The library still imports and the COMPLETE existing test suite still passes with the change:
+   `cd {wt} && PYTHONPATH={wt} /venv/bin/python -m pytest -q -x -p no:cacheprovider --timeout=900` must report
+   112 passed (it takes 30-60 s; run it for every change, and do not edit, skip or delete tests).
+3. It needs something SPECIFIC to manifest, so that ordinary use does not expose it at once: an unusual but valid input
+   (odd sizes, exact ties or zeros, negative or huge values, other dtypes or container types, non-contiguous arrays,
+   grids that do not start at 0, strongly anisotropic cells, a rarely used option or combination of options), a
+   multi-step sequence of operations (state left behind by an earlier call, an object that went through copy / pickle /
+   file IO / a worker process, a collection edited in a particular order), a particular completion order of worker
+   processes, or two cooperating sites in different functions or modules that each look fine alone.
+4. It is realistic: it should read like a plausible refactoring, optimisation, clean-up or well-meant "bug fix" that a
+   maintainer could accept in review (give it an innocent justification in a code comment if that helps). No sabotage
+   that checks for magic values, no randomness, no dependence on environment variables, time or process ids.
+5. It touches only files under {wt}/droplets/ (not tests, not examples, not docs).
+
+For each change k write into {out}/{pid}_k/ :
+  - patch.diff : output of `git -C {wt} diff` for that change alone (paths relative to the repository root, applicable
+    with `git apply` to a clean tree);
+  - demo.py : a small self-contained program that imports `droplets` through PYTHONPATH (do not hard-code a path), exits
+    with status 0 on the UNCHANGED tree and with a non-zero status (failed assertion with a clear message) WITH the
+    change. It must check the property itself (what a user relies on), not an implementation detail, must be
+    deterministic and finish within a minute. Run it both ways yourself:
+    `cd {wt} && PYTHONPATH={wt} /venv/bin/python {out}/{pid}_k/demo.py; echo $?` with the change applied and after
+    `git checkout -- .`;
+  - meta.json : {{"property": "{pid}", "summary": "<what was changed, where, and the innocent justification>",
+    "needs": "<what exactly is needed for the breakage to manifest, and what stays unaffected (why the tests pass)>",
+    "files": ["droplets/..."], "tests_pass_with_change": true, "demo_fails_with_change": true,
+    "demo_passes_without_change": true}}  (fill the three booleans with what you actually observed).
+
+Leave the worktree clean at the end (`git -C {wt} checkout -- .`; remove files you created there). Finish with a short
+report: for each k one line with the file/function changed, the mechanism, and what it needs to manifest; say plainly
+if you could not produce three changes that meet all requirements (fewer good ones are better than padded ones).
+"""
+
+KNOWN_HEAD = ("In earlier rounds other people already produced the following property-breaking changes. They are KNOWN - "
+              "do NOT repeat them or close variants of them (same function + same kind of slip); find genuinely "
+              "different mechanisms, other functions, other kinds of input or history:\n")
+
 for pid, p in props.items():
     known = []
     for d in sorted(glob.glob(f"/verif/seeded/{pid}_*"), key=lambda x: int(x.rsplit("_", 1)[1])):
         m = json.load(open(d + "/meta.json"))
-        known.append(f"  - {m['summary'][:300]}  [needs: {m['needs'][:160]}]")
-    text = (head + "This semantic property of the library is supposed to hold:\n\n"
-            f"PROPERTY {pid} - {p['title']}\n{p['statement']}\n\n"
-            "In earlier rounds other people already produced the following property-breaking changes. They are KNOWN - do NOT "
-            "repeat them or close variants of them (same function + same kind of slip); find genuinely different ones:\n"
-            + "\n".join(known) + "\n\n" + tail)
-    text = text.replace(f"R{old_round}C12", f"R{rnd}{pid}").replace(f"wtout{old_round}/C12", f"wtout{rnd}/{pid}")
-    text = text.replace('"property": "C12"', f'"property": "{pid}"').replace("C12_k", f"{pid}_k")
+        known.append(f"  - {m['summary'][:280]}  [needs: {m['needs'][:140]}]")
+    known_block = (KNOWN_HEAD + "\n".join(known) + "\n") if known else ""
+    text = TEMPLATE.format(wt=f"/tmp/wt/R{rnd}{pid}", out=f"/tmp/wtout{rnd}/{pid}", pid=pid, title=p["title"],
+                           statement=p["statement"], known_block=known_block)
     open(f"{outdir}/R{rnd}{pid}.txt", "w").write(text)
     print(pid, len(text))
